@@ -280,7 +280,24 @@ fn metric_name(i: usize) -> String {
 }
 
 pub fn run_case(case: &QueueCase, ctx: &Ctx) -> Run {
+    run_case_focus(case, ctx, None)
+}
+
+/// `focus`: the rule the calling campaign decides. Liveness waits that can only
+/// produce findings for *other* rules use a short bound, so that a defect outside
+/// the focus does not make every case wait W several times (a late event then
+/// merely yields a finding the campaign ignores).
+/// liveness timeouts that only concern rules outside the calling campaign's focus
+pub static NONFOCUS_TIMEOUTS: std::sync::atomic::AtomicU64 = std::sync::atomic::AtomicU64::new(0);
+
+pub fn run_case_focus(case: &QueueCase, ctx: &Ctx, focus: Option<QRule>) -> Run {
     let w = ctx.w();
+    let w_for = |rule: QRule| -> Duration {
+        match focus {
+            Some(f) if f != rule => w.min(Duration::from_millis(150)),
+            _ => w,
+        }
+    };
     let gate = Gate::new();
     let mut findings: Vec<QFinding> = Vec::new();
     let mut st = QStats::default();
@@ -341,6 +358,11 @@ pub fn run_case(case: &QueueCase, ctx: &Ctx) -> Run {
             if inhand.is_none() && !queue.is_empty() {
                 let want = entered + 1;
                 if !gate.wait_until(w, |g| g.entered >= want) {
+                    if let Some(f) = focus {
+                        if !deliver_rules(any_panic, final_dropped).contains(&f) {
+                            NONFOCUS_TIMEOUTS.fetch_add(1, std::sync::atomic::Ordering::Relaxed);
+                        }
+                    }
                     find!(
                         deliver_rules(any_panic, final_dropped),
                         $oi,
@@ -433,7 +455,7 @@ pub fn run_case(case: &QueueCase, ctx: &Ctx) -> Run {
         ($oi:expr) => {{
             if !fatal {
                 if let Some(&h) = live.first() {
-                    let deadline = std::time::Instant::now() + w;
+                    let deadline = std::time::Instant::now() + w_for(QRule::Panics);
                     loop {
                         match actor.call(Cmd::Stats(h), w) {
                             Ok(Reply::Stats { panics, .. }) => {
@@ -719,7 +741,7 @@ pub fn run_case(case: &QueueCase, ctx: &Ctx) -> Run {
                             if case.handler {
                                 handler_expected += 1;
                                 let want = handler_expected;
-                                if !gate.wait_until(w, |g| g.handled >= want) {
+                                if !gate.wait_until(w_for(QRule::Handler), |g| g.handled >= want) {
                                     find!(
                                         [QRule::Handler],
                                         oi,
@@ -809,7 +831,7 @@ pub fn run_case(case: &QueueCase, ctx: &Ctx) -> Run {
         } else {
             // stop the actor first: it holds no handle any more
             let _ = actor.tx.send(Cmd::Quit);
-            if !gate.wait_until(w, |g| g.released) {
+            if !gate.wait_until(w_for(QRule::Shutdown), |g| g.released) {
                 find!(
                     [QRule::Shutdown],
                     oi,
@@ -1090,7 +1112,13 @@ impl Campaign for QueueCampaign {
         if case.cap == Some(0) {
             return Outcome::ok();
         }
-        let run = run_case(case, ctx);
+        if NONFOCUS_TIMEOUTS.load(std::sync::atomic::Ordering::Relaxed) > 60 {
+            // the tree has a delivery defect that is not this property's: every case would
+            // wait W; stop exploring (exit 2, inconclusive) instead of running for hours
+            util::mark_inconclusive("more than 60 delivery timeouts outside this property's focus: exploration cut short");
+            return Outcome::ok();
+        }
+        let run = run_case_focus(case, ctx, Some(self.focus));
         let verdict = match run
             .findings
             .iter()
